@@ -449,6 +449,11 @@ def rule_adjoint_fill(rep: Report, repo: Repo):
                 ok = _swapped_index(sub.slice, d)
             rep.check(bool(ok), R, f"{q} fill value `{norm(ret) if ret else ''}`",
                       "lower block = Dagger(upper block at (index[1], index[0], same orders))", repo.loc(mod, n))
+    adjoint_fill_compiler(rep, repo)
+
+
+def adjoint_fill_compiler(rep: Report, repo: Repo):
+    R = "E2.adjoint_fill"
     # generated `lower` branch of the compiler: the index form and the test text
     ap = repo.trees["algorithm_parsing"]
     et = repo.find("algorithm_parsing::_EvalType", R)
